@@ -234,11 +234,31 @@ def run(ck):
         f = getfn(ck, "sc", E, MT + name)
         if f:
             tomb = 0
+            sites = []
             for (bi, t) in f.calls(r"std::mem::replace$"):
                 o = f.origins(t["args"][1], deep=True)
                 if any(a[0] == "agg" and a[1].endswith("Entry::Deleted") for a in o) or "Entry::Deleted" in str(t["args"][1]):
                     tomb += 1
+                    sites.append(bi)
+            # the same effect written as an assignment `entries[i] = Entry::Deleted`
+            for bi in f.reachable():
+                for st in f.stmts(bi):
+                    rv = st.get("rv", {})
+                    if "lhs" in st and st["lhs"][1] and (rv.get("k") == "agg" and rv.get("variant") == "Deleted" and rv.get("adt", "").endswith("low_level::Entry") or
+                                                      rv.get("k") == "use" and any(a[0] == "agg" and a[1].endswith("Entry::Deleted") for a in f.origins(rv["a"]))):
+                        tomb += 1
+                        sites.append(bi)
             ck.ob("TAB", f.path, "writes-tombstone", tomb >= 1, "%d entries replaced by Entry::Deleted" % tomb, f.loc())
+            if name == "delete_prefix" and sites:
+                # every entry of the removed subtree is tombstoned, whatever kind of entry it is (read-only entries inherited
+                # from the persistent tree or an older generation included)
+                kinds = []
+                for bi in sites:
+                    for (k2, nn, v) in conditions_at(f, bi, same_loop=True):
+                        if k2.startswith("call:is_owned") or "is_owned" in nn or any(x in nn for x in ("Mutable", "ReadOnly")):
+                            kinds.append((k2, v))
+                ck.ob("DOM", f.path, "tombstone-unconditional", not kinds, "inside the loop over the removed subtree the tombstone does not depend on the kind of the entry" if not kinds else
+                      "the tombstone is written only for some kinds of entries (%s): handles to the others stay usable after the prefix was deleted" % kinds, f.loc(sites[0]))
     ent = c.adts.get(LL + "Entry")
     if ck.anchor(ent is not None, "TAB", "Entry", "enum exists"):
         didx = [i for i, v in enumerate(ent["variants"]) if v["name"] == "Deleted"]
